@@ -72,6 +72,7 @@ func (h *Header) Algorithm() jwa.SignatureAlgorithm {
 
 // SetAlgorithm sets RFC 7515 Section 4.1.1. "alg" (Algorithm) Header Parameter.
 func (h *Header) SetAlgorithm(alg jwa.SignatureAlgorithm) {
+	delete(h.Raw, jwa.AlgorithmKey) // the decoded value no longer applies
 	h.alg = alg
 }
 
@@ -82,6 +83,7 @@ func (h *Header) JWKSetURL() *url.URL {
 
 // SetJWKSetURL sets RFC 7515 Section 4.1.2. "jku" (JWK Set URL) Header Parameter.
 func (h *Header) SetJWKSetURL(jku *url.URL) {
+	delete(h.Raw, jwa.JWKSetURLKey) // the decoded value no longer applies
 	h.jku = jku
 }
 
@@ -92,6 +94,7 @@ func (h *Header) JWK() *jwk.Key {
 
 // SetJWK sets RFC 7515 Section 4.1.3. "jwk" (JSON Web Key) Header Parameter.
 func (h *Header) SetJWK(jwk *jwk.Key) {
+	delete(h.Raw, jwa.JSONWebKey) // the decoded value no longer applies
 	h.jwk = jwk
 }
 
@@ -102,6 +105,7 @@ func (h *Header) KeyID() string {
 
 // SetKeyID sets RFC 7515 Section 4.1.4. "kid" (Key ID) Header Parameter.
 func (h *Header) SetKeyID(kid string) {
+	delete(h.Raw, jwa.KeyIDKey) // the decoded value no longer applies
 	h.kid = kid
 }
 
@@ -112,6 +116,7 @@ func (h *Header) X509URL() *url.URL {
 
 // SetX509URL sets RFC 7515 Section 4.1.5. "x5u" (X.509 URL) Header Parameter.
 func (h *Header) SetX509URL(x5u *url.URL) {
+	delete(h.Raw, jwa.X509URLKey) // the decoded value no longer applies
 	h.x5u = x5u
 }
 
@@ -122,6 +127,7 @@ func (h *Header) X509CertificateChain() []*x509.Certificate {
 
 // SetX509CertificateChain sets RFC 7515 Section 4.1.6. "x5c" (X.509 Certificate Chain) Header Parameter.
 func (h *Header) SetX509CertificateChain(x5c []*x509.Certificate) {
+	delete(h.Raw, jwa.X509CertificateChainKey) // the decoded value no longer applies
 	h.x5c = x5c
 }
 
@@ -132,6 +138,7 @@ func (h *Header) X509CertificateSHA1() []byte {
 
 // SetX509CertificateSHA1 sets RFC 7515 Section 4.1.7. "x5t" (X.509 Certificate SHA-1 Thumbprint) Header Parameter.
 func (h *Header) SetX509CertificateSHA1(x5t []byte) {
+	delete(h.Raw, jwa.X509CertificateSHA1Thumbprint) // the decoded value no longer applies
 	h.x5t = x5t
 }
 
@@ -142,6 +149,7 @@ func (h *Header) X509CertificateSHA256() []byte {
 
 // SetX509CertificateSHA256 sets RFC 7517 Section 4.1.8. "x5t#S256" (X.509 Certificate SHA-256 Thumbprint) Header Parameter.
 func (h *Header) SetX509CertificateSHA256(x5tS256 []byte) {
+	delete(h.Raw, jwa.X509CertificateSHA256Thumbprint) // the decoded value no longer applies
 	h.x5tS256 = x5tS256
 }
 
@@ -152,6 +160,7 @@ func (h *Header) Type() string {
 
 // SetType sets RFC 7517 Section 4.1.9. "typ" (Type) Header Parameter.
 func (h *Header) SetType(typ string) {
+	delete(h.Raw, jwa.TypeKey) // the decoded value no longer applies
 	h.typ = typ
 }
 
@@ -162,6 +171,7 @@ func (h *Header) ContentType() string {
 
 // SetContentType sets RFC 7517 Section 4.1.10. "cty" (Content Type) Header Parameter.
 func (h *Header) SetContentType(cty string) {
+	delete(h.Raw, jwa.ContentTypeKey) // the decoded value no longer applies
 	h.cty = cty
 }
 
@@ -172,6 +182,7 @@ func (h *Header) Critical() []string {
 
 // SetCritical sets RFC 7515 Section 4.1.11. "crit" (Critical) Header Parameter.
 func (h *Header) SetCritical(crit []string) {
+	delete(h.Raw, jwa.CriticalKey) // the decoded value no longer applies
 	h.crit = make([]string, 0, len(crit))
 LOOP:
 	for _, param1 := range crit {
@@ -193,6 +204,7 @@ func (h *Header) Base64() bool {
 // SetBase64 sets RFC 7797 Section 3. The "b64" Header Parameter.
 // If b64 is false, it adds "b64" into "crit" (Critical) Header Parameter.
 func (h *Header) SetBase64(b64 bool) {
+	delete(h.Raw, jwa.Base64URLEncodePayloadKey) // the decoded value no longer applies
 	h.nb64 = !b64
 	if !b64 {
 		for _, param := range h.crit {
